@@ -1504,17 +1504,7 @@ theorem nilSafe_true : ∀ (p : Policy), nilSafe true p = true
   | .keyed false fb => by simp [nilSafe, nilSafe_true fb]
   | .cookie _ fb => by simp [nilSafe, nilSafe_true fb]
 
-/-! ### the proxy loop: in-flight counts and the request limit -/
-
-theorem mkPool_get (m : Nat) : ∀ (ids ls : List Nat) (i : Nat) (u : Up),
-    (mkPool m ids ls)[i]? = some u → ls[i]? = some u.load ∧ u.maxReq = m
-  | [], _, i, u, h => by simp [mkPool] at h
-  | _ :: _, [], i, u, h => by simp [mkPool] at h
-  | id :: ids, l :: ls, 0, u, h => by
-    simp [mkPool] at h; subst h; simp
-  | id :: ids, l :: ls, i + 1, u, h => by
-    simp [mkPool] at h
-    simpa using mkPool_get m ids ls i u h
+/-! ### the proxy loop: in-flight counts, failures, retries -/
 
 theorem avail_below_limit {u : Up} (h : u.avail = true) (hm : 0 < u.maxReq) : u.load < u.maxReq := by
   simp [Up.avail, Up.full] at h
@@ -1577,75 +1567,226 @@ theorem count_setNone : ∀ (hs : List (Option Nat)) (k i j : Nat), hs[k]? = som
       by_cases hx : x = some j <;> simp [hx] <;> omega
     · simp [hji]
 
-/-- the selection made for an arriving request, as an index into the address list -/
-theorem select_idx_available {m : Nat} {ids : List Nat} {s : PState} {i : Nat}
-    (h : selIdx (select true s.pol (mkPool m ids s.loads) s.draws).res = some i) :
-    ∃ l, s.loads[i]? = some l ∧ (0 < m → l < m) := by
-  have hres : (select true s.pol (mkPool m ids s.loads) s.draws).res = .sel i := by
-    revert h
-    cases (select true s.pol (mkPool m ids s.loads) s.draws).res <;> simp [selIdx]
-  obtain ⟨u, hu, hav⟩ := select_safe _ _ _ _ i hres
-  obtain ⟨h1, h2⟩ := mkPool_get m ids s.loads i u hu
-  exact ⟨u.load, h1, fun hm => by have := avail_below_limit hav (by omega); omega⟩
+theorem mkPool_get (c : PCfg) : ∀ (us : List PUp) (ls fs : List Nat) (i : Nat) (u : Up),
+    (mkPool c us ls fs)[i]? = some u →
+    ∃ pu, us[i]? = some pu ∧ ls[i]? = some u.load ∧ u.maxReq = effLimit c.m pu
+  | [], _, _, i, u, h => by simp [mkPool] at h
+  | _ :: _, [], _, i, u, h => by simp [mkPool] at h
+  | _ :: _, _ :: _, [], i, u, h => by simp [mkPool] at h
+  | pu :: us, l :: ls, f :: fs, 0, u, h => by
+    simp [mkPool] at h; subst h; exact ⟨pu, rfl, rfl, rfl⟩
+  | pu :: us, l :: ls, f :: fs, i + 1, u, h => by
+    simp [mkPool] at h
+    simpa using mkPool_get c us ls fs i u h
 
-/-- invariant: no address carries more requests than the limit, and `loads` counts exactly
-    the held requests that are in flight -/
-def PInv (m : Nat) (s : PState) : Prop :=
-  (0 < m → ∀ (j l : Nat), s.loads[j]? = some l → l ≤ m) ∧
-  ∀ (j l : Nat), s.loads[j]? = some l → l = s.held.count (some j)
+/-- address `i` can take a request: it is an upstream of the handler and below its effective limit -/
+def CanTake (c : PCfg) (loads : List Nat) (i : Nat) : Prop :=
+  ∃ l u, loads[i]? = some l ∧ c.ups[i]? = some u ∧ (0 < effLimit c.m u → l < effLimit c.m u)
 
-theorem pstep_inv (m : Nat) (ids : List Nat) (s : PState) (e : Ev) (h : PInv m s) : PInv m (pstep m ids s e).2 := by
+theorem canTake_of_sel {c : PCfg} {s : PState} {i : Nat} (h : selRes c s = .sel i) : CanTake c s.loads i := by
+  obtain ⟨u, hu, hav⟩ := select_safe _ _ _ _ i h
+  obtain ⟨pu, h1, h2, h3⟩ := mkPool_get c c.ups s.loads s.fails i u hu
+  exact ⟨u.load, pu, h2, h1, fun hm => by have := avail_below_limit hav (by omega); omega⟩
+
+/-- what one run of the proxy loop guarantees -/
+structure AttPost (c : PCfg) (hold : Bool) (left : Nat) (loads : List Nat) (held : List (Option Nat))
+    (r : List (Option Nat) × Final × PState) : Prop where
+  tried_ok : ∀ j, some j ∈ r.1 → CanTake c loads j ∧ badAt c.ups j ≠ 0
+  sent_ok : ∀ i, r.2.1 = .sent i → CanTake c loads i ∧ badAt c.ups i = 0 ∧
+    r.2.2.loads = (if hold then incAt loads i else loads) ∧
+    r.2.2.held = (if hold then held ++ [some i] else held)
+  not_sent : (∀ i, r.2.1 ≠ .sent i) → r.2.2.loads = loads ∧ r.2.2.held = held
+  bound : r.1.length ≤ left + 1 ∧ (∀ i, r.2.1 = .sent i → r.1.length ≤ left)
+
+theorem attempt_post (c : PCfg) (hold get : Bool) : ∀ (left : Nat) (prev : PErr) (s : PState),
+    AttPost c hold left s.loads s.held (attempt c hold get left prev s)
+  | 0, prev, s => by
+    unfold attempt
+    split
+    · exact ⟨by simp, by simp, fun _ => ⟨rfl, rfl⟩, by simp⟩
+    · rename_i i hsel
+      have hc := canTake_of_sel hsel
+      split
+      · rename_i hb
+        exact ⟨by simp, fun j hj => by cases hj; exact ⟨hc, hb, rfl, rfl⟩, fun h => absurd rfl (h i), by simp⟩
+      · rename_i hb
+        refine ⟨?_, by simp, fun _ => ⟨rfl, rfl⟩, by simp⟩
+        intro j hj
+        simp at hj
+        subst hj
+        exact ⟨hc, hb⟩
+    · exact ⟨by simp, by simp, fun _ => ⟨rfl, rfl⟩, by simp⟩
+    · exact ⟨by simp, by simp, fun _ => ⟨rfl, rfl⟩, by simp⟩
+  | left + 1, prev, s => by
+    unfold attempt
+    split
+    · split
+      · have ih := attempt_post c hold get left (carried prev) (afterSel c s)
+        refine ⟨?_, ih.sent_ok, ih.not_sent, ?_⟩
+        · intro j hj
+          simp at hj
+          exact ih.tried_ok j hj
+        · refine ⟨by simp; have := ih.bound.1; omega, ?_⟩
+          intro i hi
+          have := ih.bound.2 i hi
+          simp; omega
+      · exact ⟨by simp, by simp, fun _ => ⟨rfl, rfl⟩, by simp⟩
+    · rename_i i hsel
+      have hc := canTake_of_sel hsel
+      split
+      · rename_i hb
+        exact ⟨by simp, fun j hj => by cases hj; exact ⟨hc, hb, rfl, rfl⟩, fun h => absurd rfl (h i), by simp⟩
+      · rename_i hb
+        split
+        · have ih := attempt_post c hold get left (errAt c i) (afterFail c s i)
+          refine ⟨?_, ih.sent_ok, ih.not_sent, ?_⟩
+          · intro j hj
+            simp at hj
+            rcases hj with hj | hj
+            · subst hj; exact ⟨hc, hb⟩
+            · exact ih.tried_ok j hj
+          · refine ⟨by simp; have := ih.bound.1; omega, ?_⟩
+            intro k hk
+            have := ih.bound.2 k hk
+            simp; omega
+        · refine ⟨?_, by simp, fun _ => ⟨rfl, rfl⟩, by simp⟩
+          intro j hj
+          simp at hj
+          subst hj
+          exact ⟨hc, hb⟩
+    · exact ⟨by simp, by simp, fun _ => ⟨rfl, rfl⟩, by simp⟩
+    · exact ⟨by simp, by simp, fun _ => ⟨rfl, rfl⟩, by simp⟩
+
+/-- once an iteration has failed the request cannot end with "no upstreams available" -/
+theorem attempt_no_503 (c : PCfg) (hold get : Bool) : ∀ (left : Nat) (prev : PErr) (s : PState),
+    prev ≠ .none → prev ≠ .noUpstream → (attempt c hold get left prev s).2.1 ≠ .status 503
+  | 0, prev, s, h1, h2 => by
+    unfold attempt
+    split
+    · cases prev <;> simp [carried, statusOf] at *
+    · split <;> simp
+    · simp
+    · simp
+  | left + 1, prev, s, h1, h2 => by
+    have hcar : carried prev = prev := by simp [carried, h1]
+    unfold attempt
+    split
+    · split
+      · rw [hcar]; exact attempt_no_503 c hold get left prev _ h1 h2
+      · cases prev <;> simp [carried, statusOf] at *
+    · rename_i i _
+      split
+      · simp
+      · split
+        · apply attempt_no_503 c hold get left (errAt c i) _ <;> (unfold errAt; split <;> simp)
+        · simp
+    · simp
+    · simp
+
+/-- a request is answered 503 only if the very first `Select` returned nil -/
+theorem attempt_503_first_nil (c : PCfg) (hold get : Bool) (left : Nat) (s : PState)
+    (h : (attempt c hold get left .none s).2.1 = .status 503) : selRes c s = .none := by
+  cases left with
+  | zero =>
+    unfold attempt at h
+    split at h
+    · assumption
+    · split at h <;> simp at h
+    · simp at h
+    · simp at h
+  | succ left =>
+    unfold attempt at h
+    split at h
+    · assumption
+    · rename_i i _
+      split at h
+      · simp at h
+      · split at h
+        · exact absurd h (attempt_no_503 c hold get left (errAt c i) _ (by unfold errAt; split <;> simp) (by unfold errAt; split <;> simp))
+        · simp at h
+    · simp at h
+    · simp at h
+
+/-- a POST request is not retried after an error that is not a dial error -/
+theorem tryAgain_post_other (left : Nat) : tryAgain left .other false = false := by
+  simp [tryAgain]
+
+/-- invariant of the handler: `loads` counts exactly the held requests in flight, and no address
+    carries more requests than its effective limit -/
+def PInv (c : PCfg) (s : PState) : Prop :=
+  (∀ (j l : Nat), s.loads[j]? = some l → l = s.held.count (some j)) ∧
+  (∀ (j l : Nat) (u : PUp), s.loads[j]? = some l → c.ups[j]? = some u → 0 < effLimit c.m u → l ≤ effLimit c.m u)
+
+theorem count_snoc_none (hs : List (Option Nat)) (j : Nat) : (hs ++ [none]).count (some j) = hs.count (some j) := by
+  simp [List.count_append]
+
+theorem pstep_inv (c : PCfg) (s : PState) (e : Ev) (h : PInv c s) : PInv c (pstep c s e).2 := by
   unfold PInv at h ⊢
   cases e with
-  | quick => simpa only [pstep] using h
-  | hold =>
+  | arrive hold get =>
+    have post := attempt_post c hold get c.retries .none s
     simp only [pstep]
-    cases hsel : selIdx (select true s.pol (mkPool m ids s.loads) s.draws).res with
-    | none =>
-      refine ⟨h.1, ?_⟩
-      intro j l hl
-      simp only [List.count_append]
-      have := h.2 j l hl
-      simp [this]
-    | some i =>
-      obtain ⟨li, hli, hlt⟩ := select_idx_available hsel
-      constructor
-      · intro hm j l hl
-        simp only [incAt_get] at hl
-        by_cases hji : j = i
-        · subst hji
-          simp [hli] at hl
-          have := hlt hm; omega
-        · simp [hji] at hl
-          exact h.1 hm j l hl
-      · intro j l hl
-        simp only [incAt_get] at hl
-        simp only [List.count_append]
-        by_cases hji : j = i
-        · subst hji
-          simp [hli] at hl
-          have := h.2 j li hli
-          simp; omega
-        · simp [hji] at hl
-          have := h.2 j l hl
-          have hne : ¬(i = j) := fun hh => hji hh.symm
-          simp [this, hne]
+    cases hfin : (attempt c hold get c.retries .none s).2.1 with
+    | sent i =>
+      simp only
+      obtain ⟨⟨li, u, hli, hu, hlt⟩, _, hl, hh⟩ := post.sent_ok i hfin
+      rw [hl, hh]
+      cases hold with
+      | false => simpa using h
+      | true =>
+        simp only [if_true]
+        constructor
+        · intro j l hl'
+          simp only [incAt_get] at hl'
+          simp only [List.count_append]
+          by_cases hji : j = i
+          · subst hji
+            simp [hli] at hl'
+            have := h.1 j li hli
+            simp; omega
+          · simp [hji] at hl'
+            have := h.1 j l hl'
+            have hne : ¬(i = j) := fun hh => hji hh.symm
+            simp [this, hne]
+        · intro j l v hl' hv hpos
+          simp only [incAt_get] at hl'
+          by_cases hji : j = i
+          · subst hji
+            simp [hli] at hl'
+            rw [hu] at hv
+            cases hv
+            have := hlt hpos; omega
+          · simp [hji] at hl'
+            exact h.2 j l v hl' hv hpos
+    | status code =>
+      obtain ⟨hl, hh⟩ := post.not_sent (by rw [hfin]; intro i hi; cases hi)
+      cases hold with
+      | false => simp only [Bool.false_eq_true, if_false]; rw [hl, hh]; exact h
+      | true =>
+        simp only [if_true]
+        rw [hl, hh]
+        exact ⟨fun j l hl' => by rw [count_snoc_none]; exact h.1 j l hl', h.2⟩
+    | crashed =>
+      obtain ⟨hl, hh⟩ := post.not_sent (by rw [hfin]; intro i hi; cases hi)
+      cases hold with
+      | false => simp only [Bool.false_eq_true, if_false]; rw [hl, hh]; exact h
+      | true =>
+        simp only [if_true]
+        rw [hl, hh]
+        exact ⟨fun j l hl' => by rw [count_snoc_none]; exact h.1 j l hl', h.2⟩
+    | starved =>
+      obtain ⟨hl, hh⟩ := post.not_sent (by rw [hfin]; intro i hi; cases hi)
+      cases hold with
+      | false => simp only [Bool.false_eq_true, if_false]; rw [hl, hh]; exact h
+      | true =>
+        simp only [if_true]
+        rw [hl, hh]
+        exact ⟨fun j l hl' => by rw [count_snoc_none]; exact h.1 j l hl', h.2⟩
   | fin k =>
     simp only [pstep]
     split
     · rename_i i hk
       constructor
-      · intro hm j l hl
-        simp only [decAt_get] at hl
-        by_cases hji : j = i
-        · subst hji
-          cases hlj : s.loads[j]? with
-          | none => simp [hlj] at hl
-          | some x =>
-            simp [hlj] at hl
-            have := h.1 hm j x hlj; omega
-        · simp [hji] at hl
-          exact h.1 hm j l hl
       · intro j l hl
         simp only [decAt_get] at hl
         rw [count_setNone s.held k i j hk]
@@ -1655,43 +1796,48 @@ theorem pstep_inv (m : Nat) (ids : List Nat) (s : PState) (e : Ev) (h : PInv m s
           | none => simp [hlj] at hl
           | some x =>
             simp [hlj] at hl
-            have := h.2 j x hlj
+            have := h.1 j x hlj
             simp; omega
         · simp [hji] at hl
-          have := h.2 j l hl
+          have := h.1 j l hl
           simp [hji, this]
+      · intro j l v hl hv hpos
+        simp only [decAt_get] at hl
+        by_cases hji : j = i
+        · subst hji
+          cases hlj : s.loads[j]? with
+          | none => simp [hlj] at hl
+          | some x =>
+            simp [hlj] at hl
+            have := h.2 j x v hlj hv hpos; omega
+        · simp [hji] at hl
+          exact h.2 j l v hl hv hpos
     · exact h
 
-theorem prun_inv (m : Nat) (ids : List Nat) : ∀ (evs : List Ev) (s : PState), PInv m s → PInv m (prun m ids s evs).2
+theorem prun_inv (c : PCfg) : ∀ (evs : List Ev) (s : PState), PInv c s → PInv c (prun c s evs).2
   | [], s, h => h
   | e :: evs, s, h => by
     simp only [prun]
-    exact prun_inv m ids evs _ (pstep_inv m ids s e h)
+    exact prun_inv c evs _ (pstep_inv c s e h)
 
-theorem pinit_inv (m : Nat) (p : Policy) (ids ds : List Nat) : PInv m (pinit p ids ds) := by
+theorem pinit_inv (p : Policy) (c : PCfg) (ds : List Nat) : PInv c (pinit p c ds) := by
   constructor
-  · intro _ j l hl
-    simp [pinit] at hl
-    omega
   · intro j l hl
     simp [pinit] at hl
     simp [pinit]; omega
+  · intro j l u hl _ _
+    simp [pinit] at hl
+    omega
 
-theorem mkPool_avail (m : Nat) : ∀ (ids ls : List Nat) (u : Up), u ∈ mkPool m ids ls →
-    (u.avail = true ↔ ¬(0 < m ∧ m ≤ u.load)) ∧ u.maxReq = m
-  | [], _, u, h => by simp [mkPool] at h
-  | _ :: _, [], u, h => by simp [mkPool] at h
-  | id :: ids, l :: ls, u, h => by
+theorem mkPool_avail (c : PCfg) : ∀ (us : List PUp) (ls fs : List Nat) (u : Up), u ∈ mkPool c us ls fs →
+    u.healthy = true ∧ u.cb = none ∧ u.maxFails = c.maxFails
+  | [], _, _, u, h => by simp [mkPool] at h
+  | _ :: _, [], _, u, h => by simp [mkPool] at h
+  | _ :: _, _ :: _, [], u, h => by simp [mkPool] at h
+  | pu :: us, l :: ls, f :: fs, u, h => by
     simp only [mkPool, List.mem_cons] at h
     rcases h with h | h
-    · subst h
-      by_cases hm : m = 0 <;> simp [Up.avail, Up.isHealthy, Up.full, hm] <;> omega
-    · exact mkPool_avail m ids ls u h
-
-theorem outOf_sent {r : Res} {i : Nat} (h : outOf r = .sent i) : r = .sel i := by
-  cases r <;> simp [outOf] at h; subst h; rfl
-
-theorem outOf_refused {r : Res} (h : outOf r = .refused) : r = .none := by
-  cases r <;> simp [outOf] at h; rfl
+    · subst h; exact ⟨rfl, rfl, rfl⟩
+    · exact mkPool_avail c us ls fs u h
 
 end CaddyModel.C08
